@@ -101,6 +101,7 @@ def _run(job):
                     run.round_postconditions(ctx, m, f)
                 if job.get("post") == "cutoff":
                     run.cutoff_postconditions(ctx, m, f)
+                    run.protocol_postconditions(ctx, m, f)
                 if job.get("post") in ("sat+", "sat-"):
                     run.saturation_postconditions(ctx, m, job["post"] == "sat+")
                 ctxs.append((m["name"], ctx))
